@@ -195,6 +195,8 @@ class EnvObj(object):
     def copy(self):
         o = EnvObj(self.parent, self.module, self.func)
         o.vars = dict(self.vars)
+        if getattr(self, "captured", False):
+            o.captured = True
         return o
 
 
@@ -389,10 +391,7 @@ class Interp(object):
     def simp(self, st, v):
         """Simplify a value under the state's assumptions (prune decided ITEs, restrict Fins)."""
         if isinstance(v, Fin):
-            try:
-                return st.folder().restrict(v)
-            except Dead:
-                raise
+            return self.restrict_fin(st, v)
         if isinstance(v, App) and v.op == "ite":
             d = self.decide(st, v.args[0])
             if d is True:
@@ -415,6 +414,30 @@ class Interp(object):
         if isinstance(v, TupleVal):
             return TupleVal([self.simp(st, x) for x in v.items])
         return v
+
+    def restrict_fin(self, st, f):
+        """Restrict a table to the state's domains; returns the same object when nothing changes."""
+        touched = False
+        for i, sl in enumerate(f.slots):
+            d = st.dom.get(sl)
+            if d is not None and len(d) != len(self.space.dom[sl]):
+                ds = set(d)
+                if any(k[i] not in ds for k in f.table):
+                    touched = True
+                    break
+        if not touched:
+            for c in st.constraints:
+                if all(x in f.slots for x in c.slots):
+                    touched = True
+                    break
+        if not touched:
+            for cs, _ in self.space.constraints:
+                if all(x in f.slots for x in cs):
+                    touched = True
+                    break
+        if not touched:
+            return f
+        return st.folder().restrict(f)
 
     def truth(self, st, v, node=None):
         """Truthiness of a value as a condition term."""
